@@ -163,15 +163,20 @@ pub async fn handle_scenario(seed: u64, cut: bool) {
         drop(c);
         yields(rng.below(5)).await;
     }
-    if let Some(p) = provider.take() {
-        // a provider that is still around keeps nothing alive by itself once it is dropped
-        tr(json!({"ev": "hd_provider_drop"}));
-        drop(p);
+    // a provider that is still around is dropped now in half of the cases; otherwise it stays alive beyond the end
+    // of the scenario and the value has to be released because no handle is left anywhere
+    let keep_provider = rng.chance(1, 2);
+    if !keep_provider {
+        if let Some(p) = provider.take() {
+            tr(json!({"ev": "hd_provider_drop"}));
+            drop(p);
+        }
     }
     // the release travels over the connections: wait for quiescence
     let mut none: Vec<tokio::task::JoinHandle<()>> = vec![spawn_d(1, async { yields(600).await })];
     let _ = wait_tasks(&mut none, &links, 3000).await;
-    tr(json!({"ev": "hd_end"}));
+    tr(json!({"ev": "hd_end", "provider_alive": provider.is_some()}));
+    drop(provider);
     for c in conns {
         c.pump.abort();
         for h in c.conn {
